@@ -23,6 +23,7 @@ type Op struct {
 	Hex   []string `json:"bytes"`
 	Ints  []int64  `json:"ints"`
 	Strs  []string `json:"strs,omitempty"` // plain tokens (no spaces)
+	Meta  string   `json:"meta,omitempty"` // generator knowledge for the oracle; not sent to the driver
 }
 
 // Case is a sequence of operations run on a fresh instance of the component.
@@ -304,7 +305,7 @@ func (r *runner) shrink(c Case, kind string) Case {
 func cloneCase(c Case) Case {
 	n := Case{Tag: c.Tag, Ops: make([]Op, len(c.Ops))}
 	for i, o := range c.Ops {
-		no := Op{Name: o.Name, Ints: append([]int64{}, o.Ints...), Strs: append([]string{}, o.Strs...)}
+		no := Op{Name: o.Name, Ints: append([]int64{}, o.Ints...), Strs: append([]string{}, o.Strs...), Meta: o.Meta}
 		no.Bytes = make([][]byte, len(o.Bytes))
 		for j, b := range o.Bytes {
 			no.Bytes[j] = append([]byte{}, b...)
